@@ -1,9 +1,19 @@
-(* Abstract ERC20 ledger: the behaviour assumed of the deployed bytecode
-   (OpenZeppelin ERC20 as compiled into x/evmutil/types/ethermint_json:
-   ERC20MintableBurnable for EVM-native pairs, ERC20KavaWrappedCosmosCoin for
-   the module-deployed wrappers).  "Modelled, not verified": the correspondence
-   check observes balanceOf/totalSupply of the real contracts in the real EVM
-   after every step of every history.  Definitions only. *)
+(* Abstract ERC20 ledgers: the behaviour assumed of the deployed bytecode.
+
+   [Oz]     OpenZeppelin 4.x ERC20 as compiled into x/evmutil/types/ethermint_json
+            (ERC20MintableBurnable for EVM-native pairs, ERC20KavaWrappedCosmosCoin
+            for the module-deployed wrappers): balances, total supply, allowances;
+            every entry point refuses the zero address; an allowance of 2^256-1 is
+            "infinite" and is not spent by transferFrom.
+   [Refund] an adversarial token (test data of the harness: hand-assembled
+            bytecode) whose transfer() also grants the sender an allowance of the
+            amount over the recipient's balance and announces it with an Approval
+            event; no zero-address checks, unchecked (wrapping) additions, no total
+            supply, mint open to anybody, no approve/burn entry points.
+
+   "Modelled, not verified": the correspondence check observes balanceOf /
+   totalSupply / allowances of the real contracts in the real EVM after every
+   step of every history.  Definitions only. *)
 From Kava Require Import Base.Prelude.
 
 (* uint256 arguments: go-ethereum's abi.Pack encodes a *big.Int with
@@ -11,32 +21,80 @@ From Kava Require Import Base.Prelude.
 Definition U256 : Z := 2 ^ 256.
 Definition u256 (x : Z) : Z := x mod U256.
 
+Inductive ckind := Oz | Refund.
+
 Record ledger := mkLedger {
-  ebal : nat -> Z;      (* _balances *)
-  etot : Z              (* _totalSupply *)
+  ebal : nat -> Z;            (* _balances *)
+  etot : Z;                   (* _totalSupply *)
+  eallow : nat -> nat -> Z    (* _allowances: owner, spender *)
 }.
 
-Definition empty_ledger : ledger := mkLedger (fun _ => 0) 0.
+Definition empty_ledger : ledger := mkLedger (fun _ => 0) 0 (fun _ _ => 0).
 
-(* ERC20._transfer(from, to, amount): reverts when the sender's balance is
-   smaller than the amount; a transfer to oneself nets to no change. *)
-Definition erc_transfer (l : ledger) (f t : nat) (x : Z) : option ledger :=
+(** * OpenZeppelin ERC20 ([z] is the zero address) *)
+
+(* ERC20._transfer(from, to, amount): reverts for the zero address on either
+   side and when the sender's balance is smaller than the amount; a transfer to
+   oneself nets to no change. *)
+Definition erc_transfer (z : nat) (l : ledger) (f t : nat) (x : Z) : option ledger :=
+  if Nat.eqb f z || Nat.eqb t z then None else
   let v := u256 x in
   if v <=? ebal l f then
     let b1 := upd (ebal l) f (ebal l f - v) in
-    Some (mkLedger (upd b1 t (b1 t + v)) (etot l))
+    Some (mkLedger (upd b1 t (b1 t + v)) (etot l) (eallow l))
   else None.
 
-(* ERC20._mint(to, amount): checked addition on the total supply. *)
-Definition erc_mint (l : ledger) (t : nat) (x : Z) : option ledger :=
+(* ERC20._mint(to, amount): not to the zero address; checked addition on the total supply. *)
+Definition erc_mint (z : nat) (l : ledger) (t : nat) (x : Z) : option ledger :=
+  if Nat.eqb t z then None else
   let v := u256 x in
   if etot l + v <? U256 then
-    Some (mkLedger (upd (ebal l) t (ebal l t + v)) (etot l + v))
+    Some (mkLedger (upd (ebal l) t (ebal l t + v)) (etot l + v) (eallow l))
   else None.
 
 (* ERC20._burn(from, amount) *)
-Definition erc_burn (l : ledger) (f : nat) (x : Z) : option ledger :=
+Definition erc_burn (z : nat) (l : ledger) (f : nat) (x : Z) : option ledger :=
+  if Nat.eqb f z then None else
   let v := u256 x in
   if v <=? ebal l f then
-    Some (mkLedger (upd (ebal l) f (ebal l f - v)) (etot l - v))
+    Some (mkLedger (upd (ebal l) f (ebal l f - v)) (etot l - v) (eallow l))
   else None.
+
+(* ERC20.approve(spender, amount) called by owner [o] *)
+Definition erc_approve (z : nat) (l : ledger) (o sp : nat) (x : Z) : option ledger :=
+  if Nat.eqb o z || Nat.eqb sp z then None else
+  Some (mkLedger (ebal l) (etot l) (upd2 (eallow l) o sp (u256 x))).
+
+(* ERC20.transferFrom(from, to, amount) called by spender [sp]:
+   _spendAllowance (skipped for the infinite allowance), then _transfer *)
+Definition erc_transfer_from (z : nat) (l : ledger) (sp f t : nat) (x : Z) : option ledger :=
+  let v := u256 x in
+  let a := eallow l f sp in
+  let spent :=
+    if a =? U256 - 1 then Some l else
+    if v <=? a then erc_approve z l f sp (a - v) else None in
+  match spent with
+  | None => None
+  | Some l1 => erc_transfer z l1 f t x
+  end.
+
+(** * the adversarial "refundable transfer" token *)
+
+Definition rf_mint (l : ledger) (t : nat) (x : Z) : ledger :=
+  mkLedger (upd (ebal l) t (u256 (ebal l t + u256 x))) (etot l) (eallow l).
+
+(* transfer(to, amt) by [f]: moves the tokens and sets allowance[to][f] = amt *)
+Definition rf_transfer (l : ledger) (f t : nat) (x : Z) : option ledger :=
+  let v := u256 x in
+  if ebal l f <? v then None else
+  let b1 := upd (ebal l) f (ebal l f - v) in
+  Some (mkLedger (upd b1 t (u256 (b1 t + v))) (etot l) (upd2 (eallow l) t f v)).
+
+(* transferFrom(from, to, amt) by [sp] *)
+Definition rf_transfer_from (l : ledger) (sp f t : nat) (x : Z) : option ledger :=
+  let v := u256 x in
+  let a := eallow l f sp in
+  if a <? v then None else
+  if ebal l f <? v then None else
+  let b1 := upd (ebal l) f (ebal l f - v) in
+  Some (mkLedger (upd b1 t (u256 (b1 t + v))) (etot l) (upd2 (eallow l) f sp (a - v))).
